@@ -157,12 +157,6 @@ func c18RunIn(hist []c18Action, queries bool) vh.HistResult {
 			break
 		}
 	}
-	if os.Getenv("VERIF_TZ") != "" {
-		// the same instants carried by time values in UTC (a time.Time denotes an instant, whatever its zone)
-		windows = append(windows,
-			window{"same-day, UTC values", now.Add(-time.Hour), now, now.Add(-time.Hour).UTC(), now.UTC()},
-			window{"across-midnight, UTC values", now.Add(-26 * time.Hour), now, now.Add(-26 * time.Hour).UTC(), now.UTC()})
-	}
 	outcomes := map[string]bool{}
 	for _, kind := range []string{"recv", "sent"} {
 		for _, name := range c18Names {
@@ -351,6 +345,9 @@ func TestC18(t *testing.T) {
 	if vh.Thorough() {
 		maxW, maxC, depth = 4, 3, 6
 		names = c18Names
+	} else if os.Getenv("VERIF_TZ") != "" {
+		maxW, maxC, depth = 2, 2, 4 // the quick tier's second pass (another time zone) is a smaller one
+		names = []string{"a", "b/a"}
 	}
 	h := &vh.Hist[c18Action]{
 		Rep:        rep,
